@@ -383,8 +383,9 @@ func (idx *Index) DiffWithTree(tree *object.Tree) ([]*DiffEntry, error) {
 
 	// check if there are new files
 	for _, entry := range idx.Entries {
-		_, isFound := object.GetNode(tree.Children, string(entry.Path))
-		if !isFound {
+		node, isFound := object.GetNode(tree.Children, string(entry.Path))
+		// a directory of the tree is not the same thing as a staged file of that name
+		if !isFound || len(node.Children) > 0 {
 			diffEntries = append(diffEntries, &DiffEntry{
 				Dt:    diffNew,
 				Entry: entry,
